@@ -824,7 +824,11 @@ def gen_c06(tier, seed):
                         for lo, hi in ((0, 255), (256, 65535)):
                             lines.append(("c06_%s_%s_%s_i%d_a%d" % (P.lower(), cpu.lower(), op.lower(), pos, lo), "quick" if quick and lo == 0 else "thorough", P, K, N, cpu, op, pos, lo, hi))
                         # nearly opaque pixel inside a nearly opaque row (all-opaque shortcuts)
-                        lines.append(("c06_%s_%s_%s_i%d_opq" % (P.lower(), cpu.lower(), op.lower(), pos), "quick" if quick and pos == 0 else "thorough", P, K, N, cpu, op, pos, 65280, 65535, True))
+                        # (16 alphas only: the 256-wide slice did not finish in 30 min on the unchanged tree)
+                        lines.append(("c06_%s_%s_%s_i%d_opq" % (P.lower(), cpu.lower(), op.lower(), pos), "thorough", P, K, N, cpu, op, pos, 65520, 65535, True))
+                        # quick: one fixed, nearly opaque alpha (0xff80) with symbolic colours - a constant divisor keeps
+                        # the float division cheap (the 16-alpha slice needs > 17 min)
+                        lines.append(("c06_%s_%s_%s_i%d_opq1" % (P.lower(), cpu.lower(), op.lower(), pos), "quick" if quick and pos == 0 else "thorough", P, K, N, cpu, op, pos, 65408, 65408, True))
                     else:
                         lines.append(("c06_%s_%s_%s_i%d" % (P.lower(), cpu.lower(), op.lower(), pos), "quick" if quick else "thorough", P, K, N, cpu, op, pos, 0, mx))
                         if cpu != "None" and is_div:
